@@ -309,7 +309,7 @@ def check_jacobian(case, log, result, rec):
         if len(nz) != 1:
             continue
         j = int(nz[0])
-        if abs(d[j]) > 1e-6 * max(1.0, abs(xopt[j])):
+        if not 1e-10 * max(1.0, abs(xopt[j])) <= abs(d[j]) <= 1e-6 * max(1.0, abs(xopt[j])):
             continue
         if j not in cand or abs(d[j]) < abs(cand[j][0]):
             cand[j] = (d[j], ev)
